@@ -63,8 +63,8 @@ ASSUMPTIONS = [
     "the descriptor wait follows C15's model in one-success mode (the endpoint never asks for await-all): first own "
     "UPLOADED after its UPLOAD = success, every attempted own upload FAILED = failure, decisions never precede the "
     "creating command's reply; one UPLOAD and one outcome per (service, directory), UPLOAD first",
-    "foreign services upload to directories disjoint from the created service's (the shared-directory case is the "
-    "C15 known finding 'UPLOADED matched by directory only' and is excluded here by construction)",
+    "foreign services upload to directories disjoint from the created service's (how a foreign UPLOADED on a shared "
+    "directory is treated is C15's subject and is excluded here by construction)",
     "an ADD_ONION service's own events never precede the ADD_ONION reply; a filesystem service's may precede the SETCONF reply",
     "authenticated services are version 2 with a real RSA-1024 key (v3 has no basic/stealth auth: for auth + version 3 "
     "the scripted Tor rejects the command, as real Tor does, and the case is judged as a rejected-command fault)",
@@ -564,9 +564,6 @@ def _run_listen(res, c, fault, steps, w):
     except ValueError as e:
         res.bad("valid-configuration-refused", "%s: building the endpoint raised %r" % (_describe(c, w), e))
         return
-    if r.listen_log:
-        res.bad("listen-before-listen-called", "listenTCP%r while only constructing the endpoint" % (r.listen_log,))
-        return
     # ---- B: config before / after listen()
     if c["config"] in ("instance", "fired"):
         w.deliver_config()
@@ -644,10 +641,14 @@ def _run_listen(res, c, fault, steps, w):
         if lw.failed:
             no_leak("unexpected failure")
         return
-    if len(held) != 1 or other:
-        res.bad("creating-command-not-sent", "%s: expected exactly one %s, saw ADD_ONION %r SETCONF %r" % (
-            _describe(c, w), "SETCONF" if fs else "ADD_ONION", tor.add_onion_lines, tor.setconf_lines))
+    if not held and not other:
+        res.bad("creating-command-not-sent", "%s: listen() is pending, the configuration is available, but Tor was "
+                "never asked to create the service (last commands %r)" % (_describe(c, w), tor.pipe.commands[-3:]))
         return
+    if len(held) != 1 or other:
+        # this harness scripts exactly one creating command of the expected kind
+        raise HarnessError("%s: expected exactly one %s, saw ADD_ONION %r SETCONF %r" % (
+            _describe(c, w), "SETCONF" if fs else "ADD_ONION", tor.add_onion_lines, tor.setconf_lines))
     if not interfaces_ok():
         return
     if not r.listen_log:
@@ -1124,10 +1125,86 @@ def fault_matrix():
                 c = dict(conf)
                 if fault == "config" and timing == "instance":
                     timing = "fired"
-                c.update({"public_port": [80, 443, 8080, 65535, 1][k % 5], "local_port": [None, None, 1234][k % 3],
+                # (indices mixed with k // m so that a strided sample of the matrix still sees every value)
+                c.update({"public_port": [80, 443, 8080, 65535, 1][k % 5], "local_port": [None, None, 1234][(k + k // 3) % 3],
                           "first_port": [40001, 1024, 65535, 8080][k % 4], "config": timing, "fault": fault,
-                          "code": REJECT_CODES[k % len(REJECT_CODES)], "n": k % 6, "trace": trace})
+                          "code": REJECT_CODES[(k + k // 6) % len(REJECT_CODES)], "n": (k + k // 6) % 6, "trace": trace})
                 yield c
+
+
+def _merges(a, b):
+    """all interleavings of sequences a and b preserving each one's order"""
+    if not a:
+        yield list(b)
+        return
+    if not b:
+        yield list(a)
+        return
+    for rest in _merges(a[1:], b):
+        yield [a[0]] + rest
+    for rest in _merges(a, b[1:]):
+        yield [b[0]] + rest
+
+
+def _service_orders(who, dirs):
+    """every causal order of UPLOAD/outcome over `dirs` with every outcome assignment"""
+    for outcomes in itertools.product(["UPLOADED", "FAILED"], repeat=len(dirs)):
+        seqs = [[]]
+        for d, oc in zip(dirs, outcomes):
+            chain = [[who, "UPLOAD", d], [who, oc, d]]
+            nxt = []
+            for sq in seqs:
+                nxt.extend(_merges(sq, chain))
+            seqs = nxt
+        for sq in seqs:
+            yield sq
+
+
+HISTORY_CONFIGS = [
+    # (route, fs, dir, auth, version, key, config)
+    ("ctor", False, "none", "none", 3, "none", "instance"),
+    ("tor", True, "explicit", "none", 3, "none", "fired"),
+    ("parser", False, "none", "none", 2, "bare", "late"),
+    ("system", True, "explicit", "none", 2, "none", "late"),
+    ("tor", False, "none", "none", None, "discard", "late"),
+    ("ctor", True, "implicit", "none", None, "none", "late"),
+    ("parser", True, "explicit", "none", 3, "none", "fired"),
+    ("system", False, "none", "none", 3, "typed", "fired"),
+]
+HISTORY_AUTH_CONFIGS = [
+    ("ctor", False, "none", "basic", 2, "none", "fired"),
+    ("ctor", True, "explicit", "stealth", 2, "none", "instance"),
+    ("system", True, "implicit", "basic", None, "none", "late"),
+    ("tor", False, "none", "basic", None, "discard", "fired"),
+]
+
+
+def history_cases():
+    """every causal order of own uploads over <=2 directories x outcome assignment, merged in every way with one
+    foreign upload, x every causally possible position of the creating command's reply; the configuration rotates
+    (RSA-key kinds one slot in 12), every 5th history also with the reply replaced by a 5xx / a lost connection."""
+    k = 0
+    for own_dirs in ([0], [0, 1]):
+        for otr in _service_orders("o", own_dirs):
+            for ftr in _service_orders("f", [0]):
+                for tr in _merges(otr, ftr):
+                    first_own = next(j for j, s_ in enumerate(tr) if s_[0] == "o")
+                    for fs_wanted in (False, True):
+                        last = len(tr) if fs_wanted else first_own
+                        for pos in range(0, last + 1):
+                            k += 1
+                            pool = HISTORY_AUTH_CONFIGS if k % 12 == 0 else HISTORY_CONFIGS
+                            pool = [x for x in pool if x[1] == fs_wanted]
+                            route, fs, dirk, auth, version, key, config = pool[(k // 12) % len(pool)]
+                            fault = "none"
+                            if k % 5 == 0:
+                                fault = ("rejected", "disconnect")[(k // 5) % 2]
+                            yield {"route": route, "fs": fs, "dir": dirk, "ephemeral_arg": False if dirk == "implicit" else None,
+                                   "auth": auth, "clients": 1 + k % 2, "auth_arg": "auth", "version": version, "key": key,
+                                   "single_hop": None, "public_port": [80, 443, 9001][k % 3], "local_port": None,
+                                   "first_port": 40001 + k % 7, "config": config, "fault": fault,
+                                   "code": REJECT_CODES[k % len(REJECT_CODES)], "n": k % 6,
+                                   "trace": tr[:pos] + [["R"]] + tr[pos:]}
 
 
 def refuse_cases():
@@ -1155,7 +1232,7 @@ MANIFEST = {
             "Finds counterexamples; does not prove absence.",
     "note": "Trusted: vlib/onionref.py (ADD_ONION decoder, HS_DESC renderers, UploadModel, scripted Tor), "
             "vlib/fakereactor.py, vlib/listenreactor.py, vlib/wire.py. global_tor/private_tor (which launch a Tor via a real "
-            "`which tor` subprocess) are not driven; foreign uploads use disjoint directories (C15 known finding).",
+            "`which tor` subprocess) are not driven; foreign uploads use disjoint directories (the shared-directory case belongs to C15).",
     "technique": "fault-point enumeration over a configuration product + property-based testing (Hypothesis) against a reference completion model and a fake reactor's listener registry",
     "design_ref": "DESIGN.md section 4, C17",
 }
@@ -1164,12 +1241,97 @@ MANIFEST = {
 def run(ctx):
     ctx.enumerate("refuse", refuse_cases(), name="invalid-combinations")
     if ctx.quick():
-        ctx.enumerate("listen", itertools.islice(fault_matrix(), 0, None, 2), name="config-x-fault-matrix-half",
+        ctx.enumerate("listen", itertools.islice(fault_matrix(), 0, None, 3), name="config-x-fault-matrix-third",
                       exhaustive=False)
-        ctx.search("listen", cases(), quick=1500)
+        ctx.enumerate("listen", itertools.islice(history_cases(), 0, None, 29), name="histories-x-reply-position-sample",
+                      exhaustive=False)
+        ctx.search("listen", cases(), quick=1200)
     else:
         ctx.enumerate("listen", fault_matrix(), name="config-x-fault-matrix")
-        ctx.search("listen", cases(), quick=1500, thorough=4000)
+        ctx.enumerate("listen", history_cases(), name="own<=2+foreign1-histories-x-reply-position")
+        ctx.search("listen", cases(), quick=1200, thorough=15000)
 
 
-MUTANTS = []
+# NOTE: written against the tree with out/fixes/C17-*.diff applied (two of them restore what the fixes add).
+_EP = "txtorcon/endpoints.py"
+MUTANTS = [
+    ("bind-all-interfaces", _EP,
+     "            'tcp:0:interface=127.0.0.1',\n", "            'tcp:0',\n"),
+    ("bind-any-ipv4", _EP,
+     "            'tcp:0:interface=127.0.0.1',\n", "            'tcp:0:interface=0.0.0.0',\n"),
+    ("public-port-as-local-port", _EP,
+     "        self.local_port = self.tcp_listening_port.getHost().port\n",
+     "        self.local_port = self.public_port\n"),
+    ("requested-local-port-told-to-tor", _EP,
+     "        self.local_port = self.tcp_listening_port.getHost().port\n",
+     "        if self.local_port is None:\n            self.local_port = self.tcp_listening_port.getHost().port\n"),
+    ("ephemeral-resolves-before-descriptor-wait", "txtorcon/onion.py",
+     "    log.msg(\"{}: waiting for descriptor uploads.\".format(onion.hostname))\n    yield uploaded_d\n",
+     "    log.msg(\"{}: waiting for descriptor uploads.\".format(onion.hostname))\n"),
+    ("filesystem-resolves-before-descriptor-wait", "txtorcon/onion.py",
+     "        yield config.save()\n        yield uploaded[0]\n        return fhs\n\n    def __init__(self, config, thedir, ports, version=3, group_readable=0):",
+     "        yield config.save()\n        return fhs\n\n    def __init__(self, config, thedir, ports, version=3, group_readable=0):"),
+    ("stoplistening-noop", _EP,
+     "        \"\"\"IListeningPort API\"\"\"\n        self._local_address.stopListening()\n",
+     "        \"\"\"IListeningPort API\"\"\"\n        pass\n"),
+    ("leak-on-failure", _EP,
+     "            yield defer.maybeDeferred(listening_port.stopListening)\n", "            pass\n"),
+    ("leak-unless-tor-protocol-error", _EP,
+     "            yield defer.maybeDeferred(listening_port.stopListening)\n",
+     "            if Failure().check(error.ConnectError) is None and 'TorProtocolError' in repr(Failure().type):\n"
+     "                yield defer.maybeDeferred(listening_port.stopListening)\n"),
+    ("leak-when-connection-lost", _EP,
+     "            yield defer.maybeDeferred(listening_port.stopListening)\n",
+     "            if type(Failure().value).__name__ != 'TorDisconnectError':\n"
+     "                yield defer.maybeDeferred(listening_port.stopListening)\n"),
+    ("leak-when-command-rejected", _EP,
+     "            yield defer.maybeDeferred(listening_port.stopListening)\n",
+     "            if type(Failure().value).__name__ != 'TorProtocolError':\n"
+     "                yield defer.maybeDeferred(listening_port.stopListening)\n"),
+    ("leak-when-key-refused", _EP,
+     "            yield defer.maybeDeferred(listening_port.stopListening)\n",
+     "            if type(Failure().value).__name__ != 'ValueError':\n"
+     "                yield defer.maybeDeferred(listening_port.stopListening)\n"),
+    ("leak-when-uploads-failed", _EP,
+     "            yield defer.maybeDeferred(listening_port.stopListening)\n",
+     "            if type(Failure().value).__name__ != 'RuntimeError':\n"
+     "                yield defer.maybeDeferred(listening_port.stopListening)\n"),
+    ("leak-for-filesystem-services", _EP,
+     "            yield defer.maybeDeferred(listening_port.stopListening)\n",
+     "            if self.ephemeral:\n"
+     "                yield defer.maybeDeferred(listening_port.stopListening)\n"),
+    ("failure-replaced-by-generic-error", _EP,
+     "            yield defer.maybeDeferred(listening_port.stopListening)\n            raise\n",
+     "            yield defer.maybeDeferred(listening_port.stopListening)\n            raise RuntimeError('could not create the onion service')\n"),
+    ("listener-closed-on-success-too", _EP,
+     "            port = yield self._create_service_for_listener()\n        except Exception:",
+     "            port = yield self._create_service_for_listener()\n            self.tcp_listening_port.stopListening()\n        except Exception:"),
+    ("gethost-reports-local-port", _EP,
+     "        self._address = TorOnionAddress(public_port, hiddenservice)\n",
+     "        self._address = TorOnionAddress(listening_port.getHost().port, hiddenservice)\n"),
+    ("gethost-hostname-without-suffix", _EP,
+     "            self.onion_uri = hs.hostname\n", "            self.onion_uri = hs.hostname[:-len('.onion')]\n"),
+    ("gethost-auth-hostname-dropped", _EP,
+     "                self.onion_uri = _maybe_unique_host(hs)\n", "                self.onion_uri = None\n"),
+    ("system-tor-validates-after-connect", _EP,
+     "        cls._validate_options(\n            hidden_service_dir, auth, None, ephemeral, private_key, single_hop,\n        )\n\n"
+     "        from txtorcon.controller import connect\n",
+     "        from txtorcon.controller import connect\n"),
+    ("single-hop-filesystem-accepted", _EP,
+     "        if single_hop and not ephemeral:\n", "        if False:\n"),
+    ("private-key-filesystem-accepted", _EP,
+     "        if private_key is not None and not ephemeral:\n", "        if False:\n"),
+    ("ephemeral-stealth-accepted", _EP,
+     "        if ephemeral and isinstance(auth, AuthStealth):\n", "        if False:\n"),
+    ("ephemeral-with-dir-accepted", _EP,
+     "        if ephemeral and hidden_service_dir is not None:\n", "        if False:\n"),
+    ("parser-version-unchecked", _EP,
+     "        if version not in (None, 2, 3):\n", "        if False:\n"),
+    ("parser-singlehop-unchecked", _EP,
+     "                raise ValueError(\n                    \"singleHop= param must be 'true' or 'false'\"\n                )\n",
+     "                singleHop = True\n"),
+    ("config-failure-swallowed", _EP,
+     "        self._config = yield self._config\n        if not isinstance(self._config, TorConfig):",
+     "        try:\n            self._config = yield self._config\n        except Exception:\n            self._config = None\n"
+     "        if self._config is None:\n            return None\n        if not isinstance(self._config, TorConfig):"),
+]
